@@ -327,7 +327,20 @@ def run_check(mod, tier, seed, replay=None):
     builds = {}
     for k in set(kinds) | {"asan"}:
         builds[k] = build_repo.build(k)
-    tables = extract_tables.main()
+    try:
+        tables = extract_tables.main()
+    except extract_tables.TranslatorCrash as e:
+        # the tie between model and code cannot be re-established: the code built from the working tree dies on an
+        # operation of a regenerated grid.  That operation is a concrete input; re-run it for the sanitizer's verdict.
+        c0 = Ctx(pid, tier, seed, builds, {}, False)
+        r = c0.real([(e.op, e.args_)])[0]
+        concrete = pid in (e.grid, "C09") and isinstance(r, dict) and "crash" in r
+        rp = write_replay(pid, "TR", {"property": pid, "kind": "translator-crash", "grid": e.grid, "message": str(e),
+                                      "correspondence_that_no_longer_checks": "Jose/Grid/%s.lean cannot be regenerated (model_is_code_on_grid of %s)" % (e.grid, e.grid),
+                                      "ops": [[e.op, e.args_]], "real": r, "seed": seed, "tier": tier})
+        print("VIOLATION property=%s replay=%s%s" % (pid, rp, "" if concrete else " no-failing-input-found"))
+        log("[%s] translator crash: %s" % (pid, e))
+        return 1
     lr = {}
     th = threading.Thread(target=lambda: lr.setdefault("r", lean_check(pid, do_leanchecker=True)))
     # the driver must exist before the correspondence can run: build first (fast when warm)
